@@ -1,5 +1,5 @@
 (* C18 — invalid configurations are rejected before any input is read or output written. *)
-From Jawk Require Import Base Json Reader Printer Ctx Expr Chain ExprParser Go TableProofs.
+From Jawk Require Import Base Json Reader Printer Ctx Expr Chain ExprParser Go FnTableOk.
 Local Open Scope N_scope.
 
 (* whenever building the pipeline fails (unparsable or arity-violating expression in any option, unknown
